@@ -858,6 +858,10 @@ func (check typecheck) conversion(n *node, typ *itype) error {
 
 	case n.typ.convertibleTo(typ):
 		ok = true
+
+	case c == nil && n.rval.IsValid() && isNumber(n.typ.TypeOf()) && isNumber(typ.TypeOf()):
+		// A constant conversion: the value is representable, as checked above.
+		ok = true
 	}
 	if !ok {
 		return n.cfgErrorf("cannot convert expression of type %s to type %s", n.typ.id(), typ.id())
